@@ -70,6 +70,8 @@ var junkTexts = []string{
 	// near misses of the elided-frames marker and of other dump lines: ordinary text
 	"...output truncated...", "... [1532 lines skipped] ...", "...additional frames elided", "..additional frames elided...",
 	"... frames elided", "goroutine running on other thread", "Previous write at 0x00c000010000 by thread T1:",
+	// terminal control sequences in the text of a program (coloured loggers, progress bars)
+	"\x1b[31mERROR\x1b[0m something failed", "progress \x1b[2K\r 42%", "bell\x07 and escape \x1b alone",
 }
 
 // renderBody returns the text of a line body. variant selection is seeded.
